@@ -1,6 +1,7 @@
 import OnetVerif.Model.Util
 import OnetVerif.Model.C20
 import OnetVerif.Model.C18Toml
+import OnetVerif.Model.C18Slices
 /-! Model for property C18: configuration files (`app/config.go`) from the decoded TOML structures
 onwards — private configuration → server identity (`LoadCothority`, `GetServerIdentity`,
 config.go:71-123), group definition → identities and roster (`ReadGroupDescToml`,
@@ -396,6 +397,28 @@ def showRes (r : Res (List ServerId)) : String :=
   | .err => "err"
   | .panic => "panic"
 
+/-- two servers that are in no file (what `Concat` adds) -/
+def outsider (i : Nat) : ServerId :=
+  { pub := [255, i], ptype := 0, services := [], address := [], description := [], url := [], priv := none }
+
+/-- the uses the harness makes of a group of `n` servers (`c18 uses <k>`): for every part `[lo:hi]` of the list
+with `lo < 3`, `hi ≤ lo + k`: `part := NewRoster(list[lo:hi])`, `part.Concat(o0)`, `part.Concat(o0, o1)`,
+`NewRoster(part.List[:1]).Concat(o1, o0)`; then `group.Roster.Concat(o0)` and a roster of the whole list.
+Every use adds one roster, so the numbers are known in advance. -/
+def usesFor (n k : Nat) : List (Sl.Use ServerId) :=
+  let pairs := (List.range (min n 3)).flatMap fun lo =>
+    ((List.range (min n (lo + k) + 1)).filter (fun hi => lo < hi)).map fun hi => (lo, hi)
+  (pairs.zipIdx.flatMap fun x =>
+      let r := 1 + 5 * x.2
+      [.part 0 x.1.1 x.1.2, .concat r [outsider 0], .concat r [outsider 0, outsider 1], .part r 0 1,
+       .concat (r + 3) [outsider 1, outsider 0]])
+    ++ [.concat 0 [outsider 0], .part 0 0 n]
+
+/-- what the group that was read shows after those uses -/
+def afterUses (g : List ServerId) (k : Nat) : List ServerId :=
+  let st := Sl.runWith Sl.newRoster (outsider 9) (Sl.ofList g) (usesFor g.length k)
+  Sl.read st.heap { arr := 0, off := 0, len := g.length, cap := g.length }
+
 def parseBool (s : String) : Option Bool :=
   if s = "1" then some true else if s = "0" then some false else none
 
@@ -477,6 +500,18 @@ def step (s : State) (toks : List String) : State × String :=
   | ["readgroup", n, ch] =>
     match n.toNat?, parseBool ch with
     | some _, some _ => (s, showRes (readGroup s.suites s.reg s.servers))
+    | _, _ => (s, "bad-op")
+  -- `uses <k> <suite>`: the group is read, a consumer makes rosters from parts of its list (`onet.NewRoster`
+  -- copies), extends them (`Roster.Concat`), rotates and samples the roster; then the group is looked at again.
+  -- The list is a slice over a heap of arrays (`Model/C18Slices.lean`): what the group shows afterwards is read back
+  -- from the heap the uses leave.
+  | ["uses", k, su] =>
+    match k.toNat?, hx su with
+    | some k, some su =>
+      if k = 0 ∨ (s.suites.find? (·.name == su)).isNone then (s, "bad-op")
+      else (s, match readGroup s.suites s.reg s.servers with
+               | .ok g => showGroup (afterUses g k)
+               | r => showRes r)
     | _, _ => (s, "bad-op")
   | ["writeread", su, n] =>
     match hx su, n.toNat? with
